@@ -1,5 +1,6 @@
 """C02 — CountMinSketch never underestimates and never exceeds the stream total (cell agreement, stride, checked arithmetic)."""
 from ..paths import PathEnumerator
+from ..guards import fv
 from ..terms import TermBuilder, fmt, mk, const, subterms, elem_of, erase_param_names
 from .common import SELF, self_field, methods_of, has_self_receiver, all_writes, symmetric_guards, fields_mentioned, loop_exits_only_on_exhaustion
 
@@ -120,7 +121,7 @@ def run(ctx):
                 return out
             for (b, t_def) in origins(lv[0][1], set()):
                 facts = {repr(c): tr for c, tr in atomic_facts(add_n, prog, b, tb)}
-                fr = facts.get(repr(first_row))
+                fr = fv(facts, first_row)
                 if t_def == cellt and fr is not True:
                     seeds_ok = False
                 if t_def == mk("min", cellt, lv[0]) and fr is not False:
